@@ -209,7 +209,36 @@ theorem C20.table_rows_same_width (header : List Cell) (jobs : List JobRow)
     simpa using this
   rw [h1, h2]
 
+/-! ### the "due in" cell -/
+
+theorem dd_length (n : Nat) : (dd n).length = 2 := rfl
+
+/-- **a distance below one day always fits the "due in" column (9 wide) unabbreviated**: `H:MM:SS`
+    with at most two hour digits and an optional sign is at most 9 characters long -/
+theorem C20.due_in_fits_below_one_day (us : Int) (h : us.natAbs < 86400000000) :
+    (prettify us).length ≤ 9 := by
+  unfold prettify
+  have hd : us.natAbs / 86400000000 = 0 := Nat.div_eq_of_lt h
+  simp only [hd, Nat.lt_irrefl, if_false, gt_iff_lt]
+  unfold hms
+  simp only [List.length_append, List.length_singleton, dd_length]
+  split <;> split <;> simp [dd_length]
+
+/-- from one day on only whole days are shown: the text ends in " day" or " days" -/
+theorem C20.due_in_days (us : Int) (h : 86400000000 ≤ us.natAbs) :
+    ∃ pre, prettify us = pre ++ [32, 100, 97, 121] ∨ prettify us = pre ++ [32, 100, 97, 121, 115] := by
+  unfold prettify
+  have hd : 0 < us.natAbs / 86400000000 := Nat.div_pos h (by decide)
+  simp only [gt_iff_lt, hd, if_true]
+  by_cases h1 : us.natAbs / 86400000000 = 1
+  · exact ⟨(if us < 0 then [45] else []) ++ natDigits 1, Or.inl (by simp [h1, List.append_assoc])⟩
+  · exact ⟨(if us < 0 then [45] else []) ++ natDigits (us.natAbs / 86400000000), Or.inr (by simp [h1, List.append_assoc])⟩
+
 /-! non-vacuity -/
+example : prettify (-45000000) = "-0:00:45".toList.map Char.toNat := by decide
+example : prettify 3600000000 = "1:00:00".toList.map Char.toNat := by decide
+example : prettify (-86400000000) = "-1 day".toList.map Char.toNat := by decide
+example : prettify (3 * 86400000000 + 5) = "3 days".toList.map Char.toNat := by decide
 /-- the hypotheses of `table_rows_same_width` are met by a concrete header and two job rows -/
 example : ∀ r ∈ tableRows [{ due := 2, cells := [{ align := .left, width := 3, text := [97] }, { align := .right, width := 2, text := [] }] },
                             { due := 1, cells := [{ align := .left, width := 3, text := [98, 99] }, { align := .right, width := 2, text := [48, 49] }] }],
